@@ -172,7 +172,7 @@ impl Prop for TerminationSync {
         )
             .prop_map(|(root, hasher_seed, geometry, depth, seed, w, sched, cancel, follow)| {
                 let workers = WORKERS[w as usize];
-                SyncCase { root, hasher_seed, geometry, depth, seed, workers, sched: if workers > 1 { Some(sched) } else { None }, cancel, follow }
+                SyncCase { root, hasher_seed, geometry, depth, seed, workers, sched: if workers > 1 && sched % 8 != 0 { Some(sched) } else { None }, cancel, follow }
             })
             .boxed()
     }
